@@ -42,7 +42,10 @@ type Conn struct {
 	out        []byte
 	closed     bool // closed by rend
 	lastReader uint64
+	lastWriter uint64
+	backReader uint64
 	waiting    bool // a rend goroutine is blocked in Read
+	closeWake  bool // rend closed the connection while a reader was blocked: the kernel wakes it
 
 	// statistics (kernel reads them at quiescence)
 	Written int
@@ -66,6 +69,8 @@ func (c *Conn) Read(p []byte) (int, error) {
 			c.lastReader = g
 			c.run.NameGoroutine(c.Name)
 		}
+	} else {
+		c.handoff(&c.backReader, "read-handoff")
 	}
 	for {
 		c.mu.Lock()
@@ -104,7 +109,33 @@ func (c *Conn) Read(p []byte) (int, error) {
 	}
 }
 
+// handoff serialises a change of the goroutine that writes to (or reads from) a
+// connection. Rend uses a connection from one goroutine at a time; code that lets two
+// goroutines share one would otherwise have them race within a single kernel step,
+// outside the schedule. The first user takes the connection as it is, every later
+// change of user parks and is granted by the kernel.
+func (c *Conn) handoff(last *uint64, kind string) {
+	g := hub.Goid()
+	c.mu.Lock()
+	if *last == g || c.run == nil || c.run.Closing() {
+		c.mu.Unlock()
+		return
+	}
+	if *last == 0 {
+		*last = g
+		c.mu.Unlock()
+		return
+	}
+	c.mu.Unlock()
+	c.run.Park(&hub.Parked{Kind: kind, Obj: c.Name, Who: c.run.WhoAmI(), Grant: func(int) {
+		c.mu.Lock()
+		*last = g
+		c.mu.Unlock()
+	}})
+}
+
 func (c *Conn) Write(p []byte) (int, error) {
+	c.handoff(&c.lastWriter, "write-handoff")
 	c.mu.Lock()
 	defer c.mu.Unlock()
 	if c.closed {
@@ -130,12 +161,38 @@ func (c *Conn) Close() error {
 		return errors.New("close of closed simulated connection")
 	}
 	c.closed = true
+	// A reader blocked on this connection is not woken here: the goroutine that closes and
+	// the goroutine that reads would then run side by side within one kernel step, in an
+	// order nobody decides. The wake-up is an event of its own (World.Internal).
+	if c.waiting && !c.run.Closing() {
+		c.closeWake = true
+		c.mu.Unlock()
+		return nil
+	}
 	c.mu.Unlock()
 	select {
 	case c.notify <- struct{}{}:
 	default:
 	}
 	return nil
+}
+
+// NeedsCloseWake reports whether a reader is still blocked on a connection rend has closed.
+func (c *Conn) NeedsCloseWake() bool {
+	c.mu.Lock()
+	defer c.mu.Unlock()
+	return c.closeWake
+}
+
+// WakeClosed lets the blocked reader of a closed connection see the close.
+func (c *Conn) WakeClosed() {
+	c.mu.Lock()
+	c.closeWake = false
+	c.mu.Unlock()
+	select {
+	case c.notify <- struct{}{}:
+	default:
+	}
 }
 
 func (c *Conn) LocalAddr() net.Addr                { return simAddr("rend") }
